@@ -15,7 +15,7 @@ func init() {
 		explanation: "The wiring that makes pass-through interception transparent, ordered and re-entrant, decided in SSA on the current source: " +
 			"R4.1 each of the three installers (found by role: the function that stores a closure into Lexer.nextToken / Parser.statementParseFn / Parser.expressionParseFn) stores a wrapper that calls the interceptor exactly once, with the wrapper's own parser/lexer argument and a `next` closure, and returns its result unchanged; `next` calls the PREVIOUSLY stored function value (loaded before the store) exactly once with the same receiver — for expressions with the wrapper's own precedence — and returns its result unchanged; " +
 			"R4.2 with that polarity (last applied = outermost) the constructor applies statement and expression interceptors in descending index order over slices the builder only appends to, so the first installed runs first; " +
-			"R4.3 the three base functions are referenced only as the initial values of the three function fields (every recursion goes through the chain); the parser's NextToken calls the lexer's NextToken exactly once, which calls the chain exactly once; " +
+			"R4.3 the three base functions are referenced only as the initial values of the three function fields (every recursion goes through the chain), and the inside of one expression step (what the base expression function calls to parse a prefix and its continuation) is called only from the base function, from inside the step, or from API entry points the library itself never calls; the parser's NextToken calls the lexer's NextToken exactly once, which calls the chain exactly once; " +
 			"R4.4 the chain is entered only after the trivia skipper ran, and the base token function never skips trivia itself; " +
 			"R4.5 only the expression wrapper writes the 'requested binding power' field: it saves the old value, sets its own precedence argument, and restores the saved value on every exit through an unconditional deferred store registered before the interceptor call; ParseRemainingExpression passes the field unmodified. " +
 			"Equality of tokens/tree/errors/output with and without interceptors is not compared.",
@@ -629,6 +629,91 @@ func checkBaseReferences(c *Ctx, t *tables, a *parserAnchors, lexFld *types.Var)
 		if n == 0 {
 			c.unres(fnName(base)+": initial value", base.Pos(), "the base function is not stored into its field anywhere")
 		}
+	}
+	// the inside of one expression step — what the base expression function calls to parse a prefix and its infix
+	// continuation — is reached only from the base function (or from an API entry point the library itself never
+	// calls: the documented re-entry points for interceptors). A parse method that calls such a step directly makes
+	// a recursive parse that no expression interceptor sees.
+	if bf := c.Prog.FuncValue(c.Pkgs["parser"].TypesInfo.Defs[t.pt.baseExpr.Name].(*types.Func)); bf != nil {
+		exprIface := c.lookupType("ast", "Expression")
+		yieldsExpr := func(f *ssa.Function) bool {
+			return f != nil && f.Pkg == bf.Pkg && f.Signature.Recv() != nil && f.Signature.Results().Len() == 1 && exprIface != nil && types.Identical(f.Signature.Results().At(0).Type(), exprIface)
+		}
+		step := map[*ssa.Function]bool{}
+		var grow func(f *ssa.Function, depth int)
+		grow = func(f *ssa.Function, depth int) {
+			allInstrs(f, func(_ *ssa.BasicBlock, _ int, in ssa.Instruction) {
+				if call, ok := in.(*ssa.Call); ok {
+					if g := call.Call.StaticCallee(); yieldsExpr(g) && !step[g] && depth < 3 {
+						// only the climbing machinery: functions that do not build a node themselves
+						if len(c.constructedNodes(g.Object().(*types.Func))) == 0 {
+							step[g] = true
+							grow(g, depth+1)
+						}
+					}
+				}
+			})
+		}
+		grow(bf, 0)
+		calledInLib := map[*ssa.Function]bool{}
+		for _, f := range c.libFunctions() {
+			allInstrs(f, func(_ *ssa.BasicBlock, _ int, in ssa.Instruction) {
+				if ci, ok := in.(ssa.CallInstruction); ok {
+					if g := ci.Common().StaticCallee(); g != nil {
+						calledInLib[g] = true
+					}
+				}
+				for _, op := range in.Operands(nil) {
+					if op != nil && *op != nil {
+						if g, ok := (*op).(*ssa.Function); ok {
+							calledInLib[g] = true // referenced as a value (table entry)
+							if g.Synthetic != "" && g.Object() != nil {
+								// a bound method value / thunk stands for the method itself
+								if fo, ok := g.Object().(*types.Func); ok {
+									if m := c.Prog.FuncValue(fo); m != nil {
+										calledInLib[m] = true
+									}
+								}
+							}
+						}
+						if mc, ok := (*op).(*ssa.MakeClosure); ok {
+							if g, ok := mc.Fn.(*ssa.Function); ok && g.Synthetic != "" && g.Object() != nil {
+								if fo, ok := g.Object().(*types.Func); ok {
+									if m := c.Prog.FuncValue(fo); m != nil {
+										calledInLib[m] = true
+									}
+								}
+							}
+						}
+					}
+				}
+			})
+		}
+		ns := 0
+		for _, f := range c.libFunctions("parser") {
+			root := f
+			for root.Parent() != nil {
+				root = root.Parent()
+			}
+			allInstrs(f, func(_ *ssa.BasicBlock, _ int, in ssa.Instruction) {
+				call, ok := in.(*ssa.Call)
+				if !ok || !step[call.Call.StaticCallee()] {
+					return
+				}
+				ns++
+				key := fmt.Sprintf("%s: calls the expression step %s #%d", fnName(f), call.Call.StaticCallee().Name(), ns)
+				okc := root == bf || step[root] || !calledInLib[root]
+				c.check(okc, key, call.Pos(), "from the base expression function, from inside the step, or from an API entry point the library never calls", "a parse method parses a sub-expression by calling the inside of the expression step directly instead of going through the interceptable expression function: expression interceptors never see that sub-expression")
+			})
+		}
+		c.Tables["expression_step_functions"] = func() []string {
+			var out []string
+			for g := range step {
+				out = append(out, g.Name())
+			}
+			sort.Strings(out)
+			return out
+		}()
 	}
 	// recursion sites through the fields (information + floor)
 	sites := 0
